@@ -316,9 +316,9 @@ theorem sch_stepCreated (p : Pool) (t : Nat) (tk : PTask) : Sch p (p.stepCreated
     · exact h0.trans (sch_afterWorker _ t _)
     · exact (h0.trans schMT).trans (sch_suspendTask _ t _)
 
-theorem sch_workerNext (p : Pool) (t : Nat) : Sch p (p.workerNext t) := by
+theorem sch_workerNext (p : Pool) (t : Nat) (tk : PTask) : Sch p (p.workerNext t tk) := by
   unfold workerNext
-  exact ((sch_logEv p _).trans schMT).trans (sch_suspendTask _ t _)
+  exact (((sch_logEv p _).trans schMT).trans (sch_runHooks _ _ _)).trans (sch_suspendTask _ t _)
 
 theorem sch_workerCancelled (p : Pool) (t : Nat) (tk : PTask) : Sch p (p.workerCancelled t tk) := by
   unfold workerCancelled
@@ -338,7 +338,7 @@ theorem sch_stepInWorker (p : Pool) (t : Nat) (tk : PTask) : Sch p (p.stepInWork
     sch_mt
   · split
     · split
-      · exact sch_workerNext p t
+      · exact sch_workerNext p t tk
       · exact sch_afterWorker p t _
     · exact sch_afterWorker p t _
     · exact Sch.refl p
